@@ -8,7 +8,8 @@ from implutil import snapshot
 
 def build_named(t, names, parent=None, nodes=None):
     lbl, cs = t
-    n = AnyNode(parent=parent, lbl=lbl, name=names[str(lbl)])
+    import implutil
+    n = implutil.adv(AnyNode)(parent=parent, lbl=lbl, name=names[str(lbl)])
     nodes[lbl] = n
     for c in cs:
         build_named(c, names, n, nodes)
